@@ -23,7 +23,7 @@ func init() {
 	})
 	Register(&Rule{
 		Name:  "R-WTM",
-		Props: []string{"C04", "C05"},
+		Props: []string{"C04", "C05", "C02", "C01"},
 		Min:   2,
 		Doc: "every call that sets a completion bit (any function from which (*Bitmap).Set is reachable: MarkComplete, MarkCompleteIfUnset, markChunkComplete, ...) is reachable " +
 			"only through the success edge (error tested nil) of a positional write of the data file, per loop iteration; the chunk index passed to the mark is the one the write offset was computed from",
